@@ -35,7 +35,10 @@ func (t *inProcessTransport) Close() error {
 }
 
 func (t *inProcessTransport) Send(_ context.Context, e envelope) error {
-	if !t.Connected() {
+	t.mu.RLock()
+	closed := t.closed
+	t.mu.RUnlock()
+	if closed {
 		return errors.New("transport is closed")
 	}
 	t.remote.envChan <- e
@@ -43,13 +46,27 @@ func (t *inProcessTransport) Send(_ context.Context, e envelope) error {
 }
 
 func (t *inProcessTransport) Receive(ctx context.Context) (envelope, error) {
-	if !t.Connected() {
+	// Deliver first what the remote party sent before closing the transport
+	select {
+	case e := <-t.envChan:
+		return e, nil
+	default:
+	}
+	t.mu.RLock()
+	closed := t.closed
+	t.mu.RUnlock()
+	if closed {
 		return nil, errors.New("transport is closed")
 	}
 	select {
 	case <-ctx.Done():
 		return nil, fmt.Errorf("receive: %w", ctx.Err())
 	case <-t.done:
+		select {
+		case e := <-t.envChan:
+			return e, nil
+		default:
+		}
 		return nil, errors.New("transport was closed while receiving")
 	case e := <-t.envChan:
 		return e, nil
@@ -99,7 +116,9 @@ func (t *inProcessTransport) SetEncryption(context.Context, SessionEncryption) e
 func (t *inProcessTransport) Connected() bool {
 	t.mu.RLock()
 	defer t.mu.RUnlock()
-	return !t.closed
+	// A closed transport still counts as connected for the receiving side
+	// until the envelopes sent before the closing are consumed
+	return !t.closed || len(t.envChan) > 0
 }
 
 func (t *inProcessTransport) LocalAddr() net.Addr {
